@@ -6,25 +6,37 @@ import numpy as np
 from hypothesis import strategies as st
 
 from raysect.core import Point3D, Vector3D
+from raysect.core.math.function.float import Arg3D, Exp3D, Constant3D
+from raysect.core.math.function.vector3d import Constant3D as ConstantVector3D
 from raysect.optical import Spectrum
 
 from cherab.core import Plasma, Species, Maxwellian, Beam, Line
 from cherab.core.atomic import elements as EL
-from cherab.core.model import BeamCXLine, BeamEmissionLine, ZeemanTriplet
+from cherab.core.model import BeamCXLine, BeamEmissionLine, GaussianLine, ZeemanTriplet, ParametrisedZeemanTriplet, \
+    MultipletLineShape
 
 from ..core import Given
 from ..mocks_beam import BeamRates, MockBeamAtomicData, MockBeamAttenuator, beam_density
 
 ID = "C05"
-RULE = ("Case = scene-free Plasma (1-4 distinct ion species with Z>=1 drawn from H/D/T/He/Li/Be/C/N/Ne/Ar charge states, "
+RULE = ("Case = scene-free Plasma (1-4 distinct ion species with Z>=1 drawn from H/D/T/He/He3/Li/Be/C/N/Ne/Ar charge states, "
         "0-2 neutrals, each with density (0 or 1e16..1e21, exponential gradient), temperature (1..5e3 eV, gradient), flow "
-        "(0 or up to 2e6 m/s per component); B = B0 (1 + g.r), incl. B = 0) x Beam (H/D/T[/He] at 1e3..1.5e5 eV/amu, "
-        "un-normalised direction, density from the Python attenuator mock: zero / uniform / Gaussian-exponential, beam point "
-        "inside or outside 0<=z<=length) x atomic data mock (1-4 donor metastables returned in a drawn order; every rate a "
-        "distinct power-law-like function of all its arguments, selected by a seed) x receiver line / Balmer-alpha x "
-        "spectral window (1..40 bins, +-6..10 % around the natural wavelength). model.emission() is called directly with "
-        "distinct beam-space and plasma-space points. Non-trivial: beam density > 0 and >= 2 ion species with non-zero "
-        "density AND non-zero flow, plus for CX >= 2 donor metastables and receiver density > 0; distinct by case hash.")
+        "(0, slow, up to 2e6 m/s per component; classes: all flows equal, one species co-moving with the beam, twin species "
+        "with equal n and T); B = B0 (1 + g.r), incl. B = 0) x Beam (H/D/T[/He] at 0 or 1e3..1.5e5 eV/amu given as float or "
+        "int, un-normalised or axis-aligned direction, density from the Python attenuator mock: zero / uniform / "
+        "Gaussian-exponential, beam point inside, on or outside 0<=z<=length) x atomic data mock (1-4 donor metastables "
+        "returned in a drawn order, optionally the same list object on every request; every rate a distinct power-law-like "
+        "function of all its arguments, selected by a seed; classes with a zero ground / excited coefficient, zero "
+        "populations, a zero BES coefficient, argument-independent coefficients) x receiver line / Balmer-alpha x spectral "
+        "window (1..40 bins, +-6..10 %). Forms: profiles as Python callables, plain floats, raysect Function3D expressions; "
+        "flows as Vector3D / callable / vector function; model wired by constructor keywords, by the beam/plasma/atomic_data "
+        "setters, or by beam.models = [...] (arguments omitted); CX line-shape class omitted / GaussianLine / ZeemanTriplet / "
+        "ParametrisedZeemanTriplet / MultipletLineShape with lineshape_args (list or tuple) or lineshape_kwargs; BES ratio "
+        "options omitted / floats / callables. ONE model instance is evaluated at 1-4 (beam point, plasma point, beam "
+        "direction, view) tuples, optionally with model.line or beam.energy re-assigned in between, and the first "
+        "evaluation is repeated at the end (bit for bit). Non-trivial: an evaluation with beam density > 0 and >= 2 ion "
+        "species with non-zero density AND non-zero flow, plus for CX >= 2 donor metastables and receiver density > 0; "
+        "distinct by case hash.")
 ASSUMPTIONS = ["the analytic mock rates are the 'individual coefficients' of the statement; the mock classes are trusted",
                "relative beam populations k_m are the charge-density weighted means of the per-species population "
                "coefficients, each at the donor/species interaction energy, sum_j Z_j^2 n_j / Z_i and T_i (anchor "
@@ -33,8 +45,8 @@ ASSUMPTIONS = ["the analytic mock rates are the 'individual coefficients' of the
                "(interval oracle)",
                "'total ion density': the statement does not say whether neutral atoms of the composition count; both the sum "
                "over charge>=1 species and Plasma.ion_density's documented sum over all species are accepted (labelled)",
-               "the default line shapes put the whole radiance inside a window that contains the line (verified by C02); "
-               "temperatures > 0, electron density / temperature > 0 (needed by the Stark multiplet shape)"]
+               "the line shapes (polarisation 'no') put the whole radiance inside a window that contains the line (verified "
+               "by C02); temperatures > 0, electron density / temperature > 0 (needed by the Stark multiplet shape)"]
 TOLERANCES = {
     "totals": "1e-9 relative (same double arithmetic on both sides: a few dozen roundings, erf differences of the Gaussian "
               "bins telescope) + |oracle(CODATA 2018) - oracle(CODATA 2022)| (constants interval)",
@@ -42,10 +54,20 @@ TOLERANCES = {
                                    "|v_beam - u|^2 cancels",
     "bounds min q_i <= q <= max q_i": "1e-9 relative slack on both ends",
     "second call into the same spectrum doubles it": "1e-12 relative to the largest sample",
-    "zero beam / receiver density": "exact zeros",
+    "zero beam / receiver density; repeat of the first evaluation; earlier results after later calls": "exact (bit for bit)",
+    "Plasma.z_effective": "1e-12 relative (two sums and a quotient)",
 }
-REQUIRED_LABELS = ["cx:zero:beam", "cx:zero:receiver", "cx:meta:1", "cx:meta:>=2", "cx:neutrals", "cx:nt",
-                   "bes:zero:beam", "bes:zero:ions", "bes:neutrals", "bes:nt"]
+_CX_SHAPES = ["default", "gaussian", "zeeman", "zeeman-args", "zeeman-kwargs", "pzeeman-args", "multiplet-args", "multiplet-kwargs"]
+REQUIRED_LABELS = (["cx:zero:beam", "cx:zero:receiver", "cx:meta:1", "cx:meta:2", "cx:meta:3", "cx:meta:4", "cx:order:shuffled",
+                    "cx:neutrals", "cx:nt", "cx:op:line", "cx:op:energy", "cx:steps:1", "cx:steps:>=3", "cx:repeat",
+                    "cx:flows:equal", "cx:flows:comoving", "cx:rates:q1=0", "cx:rates:qm=0", "cx:rates:pop=0", "cx:rates:const",
+                    "cx:provider:cached-lists", "cx:E:int", "cx:E:0", "cx:isotope-receiver"]
+                   + ["cx:ls:" + x for x in _CX_SHAPES]
+                   + ["%s:wire:%s" % (s, w) for s in ("cx", "bes") for w in ("ctor", "setters", "beam.models")]
+                   + ["%s:form:%s" % (s, f) for s in ("cx", "bes") for f in ("callable", "float", "function3d", "v:vector", "v:callable", "v:function")]
+                   + ["bes:zero:beam", "bes:zero:ions", "bes:neutrals", "bes:nt", "bes:Z>=2", "bes:op:line", "bes:op:energy",
+                      "bes:steps:1", "bes:steps:>=3", "bes:repeat", "bes:flows:equal", "bes:flows:comoving", "bes:rates:one=0",
+                      "bes:rates:const", "bes:ratios:default", "bes:ratios:floats", "bes:ratios:callables", "bes:E:int", "bes:E:0"])
 
 C_LIGHT = 299792458.0
 E_CH = 1.602176634e-19
@@ -53,9 +75,10 @@ AMU_2018 = 1.66053906660e-27
 AMU_2022 = 1.66053906892e-27
 
 # (element name, atomic number)
-POOL = [("hydrogen", 1), ("deuterium", 1), ("tritium", 1), ("helium", 2), ("lithium", 3), ("beryllium", 4),
+POOL = [("hydrogen", 1), ("deuterium", 1), ("tritium", 1), ("helium", 2), ("helium3", 2), ("lithium", 3), ("beryllium", 4),
         ("carbon", 6), ("nitrogen", 7), ("neon", 10), ("argon", 18)]
 ZMAX = dict(POOL)
+ISOTOPES = ("deuterium", "tritium", "helium3")
 
 
 # ----------------------------------------------------------------------------------------------- strategy
@@ -82,7 +105,7 @@ _vec = lambda a: st.lists(st.floats(-a, a), min_size=3, max_size=3)   # noqa: E7
 
 @st.composite
 def _grad(draw):
-    return [0.0, 0.0, 0.0] if draw(_rare([(0.2, "flat")])) else draw(_vec(0.5))
+    return [0.0, 0.0, 0.0] if draw(_rare([(0.3, "flat")])) else draw(_vec(0.5))
 
 
 @st.composite
@@ -95,7 +118,8 @@ def _flow(draw):
 def _species(draw, el, q):
     dens = 0.0 if draw(_rare([(0.1, "absent")])) else draw(st.one_of(_logu(1e16, 1e21), _logu(1e18, 1e20)))
     return {"el": el, "q": q, "n": dens, "gn": draw(_grad()), "T": draw(st.one_of(_logu(1.0, 5e3), _logu(10.0, 3e3))),
-            "gT": draw(_grad()), "v": draw(_flow())}
+            "gT": draw(_grad()), "v": draw(_flow()),
+            "form": draw(st.sampled_from(["callable", "native"])), "vform": draw(st.sampled_from(["vector", "callable", "function"]))}
 
 
 @st.composite
@@ -117,18 +141,46 @@ def _plasma(draw):
             continue
         seen.add((el, 0))
         sp.append(draw(_species(el, 0)))
-    sp = draw(st.permutations(sp))
-    return {"species": list(sp),
+    sp = list(draw(st.permutations(sp)))
+    if draw(_rare([(0.08, "twins")])):
+        for s in sp[1:]:
+            s["n"], s["gn"], s["T"], s["gT"] = sp[0]["n"], list(sp[0]["gn"]), sp[0]["T"], list(sp[0]["gT"])
+    return {"species": sp,
             "B": [0.0, 0.0, 0.0] if draw(_rare([(0.08, "unmagnetised")])) else draw(_vec(4.0)),
-            "gB": draw(_vec(0.3)),
+            "gB": [0.0, 0.0, 0.0] if draw(_rare([(0.25, "uniform")])) else draw(_vec(0.3)),
             "ne": draw(_logu(1e17, 1e21)), "te": draw(_logu(1.0, 1e4))}
 
 
 @st.composite
-def _beam(draw, elements):
-    length = draw(st.floats(0.5, 5.0))
+def _direction(draw):
+    axis = draw(_rare([(0.04, [0.0, 0.0, 1.0]), (0.03, [1.0, 0.0, 0.0]), (0.03, [0.0, -1.0, 0.0]), (0.04, [0.6, 0.0, -0.8])]))
+    d = axis if axis is not None else draw(_vec(1.0))
+    if math.sqrt(sum(x * x for x in d)) < 1e-2:
+        d = [0.0, 0.0, 1.0]
+    return list(d)
+
+
+@st.composite
+def _where(draw, length):
+    """(beam point, plasma point, beam direction, scale of the direction vector, viewing direction)"""
     where = draw(_rare([(0.03, -0.01), (0.03, 1.01), (0.02, -2.0), (0.02, 3.0), (0.03, 0.0), (0.03, 1.0)]))
     z = draw(st.floats(0.0, 1.0)) if where is None else where
+    return {"bp": [draw(st.floats(-0.3, 0.3)), draw(st.floats(-0.3, 0.3)), z * length], "pp": draw(_vec(1.0)),
+            "dir": draw(_direction()), "dscale": draw(st.sampled_from([1.0, 1.0, 0.01, 37.5])), "obs": draw(_direction())}
+
+
+@st.composite
+def _energy(draw):
+    kind = draw(_rare([(0.03, "zero"), (0.15, "int")]))
+    if kind == "zero":
+        return 0
+    if kind == "int":
+        return draw(st.integers(1000, 150000))
+    return draw(st.one_of(_logu(1e3, 1.5e5), st.floats(1e4, 1.2e5)))
+
+
+@st.composite
+def _beam(draw, elements):
     kind = draw(_rare([(0.08, "zero"), (0.25, "uniform")])) or "gauss"
     if kind == "zero":
         dens = {"kind": "zero"}
@@ -136,47 +188,129 @@ def _beam(draw, elements):
         dens = {"kind": "uniform", "n0": draw(_logu(1e12, 1e17))}
     else:
         dens = {"kind": "gauss", "n0": draw(_logu(1e12, 1e17)), "sigma": draw(st.floats(0.02, 0.3)), "decay": draw(st.floats(0.3, 10.0))}
-    d = draw(_vec(1.0))
-    if math.sqrt(sum(x * x for x in d)) < 1e-2:
-        d = [0.0, 0.0, 1.0]
-    return {"el": draw(st.sampled_from(elements)), "E": draw(st.one_of(_logu(1e3, 1.5e5), st.floats(1e4, 1.2e5))),
-            "T": draw(_logu(0.1, 100.0)), "power": draw(_logu(1e3, 1e7)), "length": length,
-            "point": [draw(st.floats(-0.3, 0.3)), draw(st.floats(-0.3, 0.3)), z * length],
-            "dens": dens, "dir": d, "dscale": draw(st.sampled_from([1.0, 1.0, 0.01, 37.5]))}
+    return {"el": draw(st.sampled_from(elements)), "E": draw(_energy()),
+            "T": draw(_logu(0.1, 100.0)), "power": draw(_logu(1e3, 1e7)), "length": draw(st.floats(0.5, 5.0)), "dens": dens}
+
+
+def _beam_velocity(E, d):
+    speed = math.sqrt(2.0 * float(E) * E_CH / AMU_2018)
+    n = math.sqrt(sum(x * x for x in d))
+    return [speed * x / n for x in d]
 
 
 @st.composite
 def _common(draw, cx):
     case = {"plasma": draw(_plasma()),
             "beam": draw(_beam(["hydrogen", "deuterium", "tritium", "helium"] if cx else ["hydrogen", "deuterium", "tritium"])),
-            "point": draw(_vec(1.0)),
-            "obs": draw(_vec(1.0)),
-            "win": {"bins": draw(st.integers(1, 40)), "half": draw(st.floats(0.06, 0.1))}}
-    if math.sqrt(sum(x * x for x in case["obs"])) < 1e-2:
-        case["obs"] = [1.0, 0.0, 0.0]
+            "win": {"bins": draw(st.integers(1, 40)), "half": draw(st.floats(0.06, 0.1))},
+            "wire": draw(st.sampled_from(["ctor", "setters", "beam.models"]))}
+    case["at"] = draw(_where(case["beam"]["length"]))
     nmeta = (draw(_rare([(0.12, 1), (0.15, 4)])) or draw(st.integers(2, 3))) if cx else 1
     case["rates"] = {"seed": draw(st.integers(0, 2 ** 31 - 1)), "metastables": nmeta,
                      "cx_order": list(draw(st.permutations(list(range(nmeta))))),
-                     "q0": {"pop": draw(_logu(1e-3, 3.0))}}
+                     "q0": {"pop": draw(_logu(1e-3, 3.0))}, "cache_lists": draw(st.booleans())}
     return case
+
+
+def _flow_classes(draw, case, lead):
+    """all flows equal / species `lead` co-moving with the beam (E_int = 0 up to rounding)."""
+    sp = case["plasma"]["species"]
+    kind = draw(_rare([(0.1, "same"), (0.06, "comoving")]))
+    if kind == "same":
+        v = sp[0]["v"] if any(sp[0]["v"]) else draw(_vec(1e6))
+        for s in sp:
+            s["v"] = list(v)
+    elif kind == "comoving" and case["beam"]["E"] > 0:
+        sp[lead]["v"] = _beam_velocity(case["beam"]["E"], case["at"]["dir"])
+
+
+def _steps(draw, case, cx):
+    """further evaluations with the same model instance"""
+    n = {"none": 0, "two": 2, "three": 3, None: 1}[draw(_rare([(0.2, "none"), (0.2, "two"), (0.1, "three")]))]
+    ions = [i for i, s in enumerate(case["plasma"]["species"]) if s["q"] >= 1]
+    steps = []
+    for _ in range(n):
+        s = draw(_where(case["beam"]["length"]))
+        op = draw(_rare([(0.2, "line"), (0.15, "energy")]))
+        if op == "line":
+            s["op"] = "line"
+            if cx:
+                s["recv"] = draw(st.sampled_from(ions))
+                up = draw(st.integers(2, 12))
+                s["transition"] = [up, draw(st.integers(1, up - 1))]
+        elif op == "energy":
+            s["op"] = "energy"
+            s["E"] = draw(_energy())
+        steps.append(s)
+    return steps
 
 
 def strategy_cx():
     @st.composite
     def s(draw):
         case = draw(_common(True))
-        ions = [i for i, sp in enumerate(case["plasma"]["species"]) if sp["q"] >= 1]
+        sp = case["plasma"]["species"]
+        ions = [i for i, x in enumerate(sp) if x["q"] >= 1]
         r = draw(st.sampled_from(ions))
         case["recv"] = r
         up = draw(st.integers(2, 12))
         case["transition"] = [up, draw(st.integers(1, up - 1))]
-        case["ls"] = draw(st.sampled_from(["default", "default", "zeeman"]))
+        _flow_classes(draw, case, r)
+        case["ls"] = draw(st.sampled_from(_CX_SHAPES))
+        case["lsp"] = {"tuple": draw(st.booleans()), "pz": [draw(st.floats(1e-3, 0.2)), draw(st.floats(0.0, 0.5)), draw(st.floats(-0.5, 0.0))],
+                       "offs": [draw(st.floats(-5e-3, 5e-3)) for _ in range(3)],
+                       "ratios": draw(st.sampled_from([[1.0], [0.5, 0.5], [0.5, 0.25, 0.25], [0.125, 0.75, 0.125]]))}
+        case["steps"] = _steps(draw, case, True)
+        # rate tables with zeros / without argument dependence (non-negative tables are in the quantifier)
+        nmeta = case["rates"]["metastables"]
+        donor = case["beam"]["el"]
+        kind = draw(_rare([(0.07, "q1=0"), (0.07, "qm=0"), (0.07, "pop=0"), (0.06, "const")]))
+        ov = {}
+        lines = [(sp[r]["el"], sp[r]["q"], case["transition"])] + [(sp[x["recv"]]["el"], sp[x["recv"]]["q"], x["transition"])
+                                                                  for x in case["steps"] if x.get("op") == "line"]
+        for el, q, tr in lines:
+            if kind == "q1=0":
+                ov["cx|" + BeamRates.cx_key(donor, 1, el, q, tr)] = {"q0": 0.0, "p": [0.5] * 5}
+            elif kind == "qm=0" and nmeta >= 2:
+                ov["cx|" + BeamRates.cx_key(donor, 2, el, q, tr)] = {"q0": 0.0, "p": [0.5] * 5}
+            elif kind == "const":
+                for m in range(1, nmeta + 1):
+                    ov["cx|" + BeamRates.cx_key(donor, m, el, q, tr)] = {"q0": 1e-33 * (1 + 0.5 * m), "p": [0.0] * 5}
+        if kind == "pop=0" and nmeta >= 2:
+            for x in sp:
+                if x["q"] >= 1:
+                    ov["pop|" + BeamRates.pop_key(donor, 2, x["el"], x["q"])] = {"q0": 0.0, "p": [0.5] * 3}
+        if ov:
+            case["rates"]["override"] = ov
+            case["rates_class"] = kind
         return case
     return s()
 
 
 def strategy_bes():
-    return _common(False)
+    @st.composite
+    def s(draw):
+        case = draw(_common(False))
+        sp = case["plasma"]["species"]
+        ions = [i for i, x in enumerate(sp) if x["q"] >= 1]
+        _flow_classes(draw, case, ions[0])
+        case["steps"] = _steps(draw, case, False)
+        case["ratios"] = draw(st.sampled_from(["default", "floats", "callables"]))
+        case["ratio_values"] = [draw(st.floats(0.1, 2.0)) for _ in range(4)]
+        kind = draw(_rare([(0.1, "one=0"), (0.06, "const")]))
+        bel = case["beam"]["el"]
+        ov = {}
+        if kind == "one=0":
+            x = sp[draw(st.sampled_from(ions))]
+            ov["bes|" + BeamRates.bes_key(bel, x["el"], x["q"], (3, 2))] = {"q0": 0.0, "p": [0.5] * 3}
+        elif kind == "const":
+            for i in ions:
+                ov["bes|" + BeamRates.bes_key(bel, sp[i]["el"], sp[i]["q"], (3, 2))] = {"q0": 1e-34 * (1 + i), "p": [0.0] * 3}
+        if ov:
+            case["rates"]["override"] = ov
+            case["rates_class"] = kind
+        return case
+    return s()
 
 
 # ----------------------------------------------------------------------------------------------- building
@@ -185,11 +319,30 @@ def _unit(v):
     return [x / n for x in v]
 
 
+def _flat(g):
+    return g[0] == 0.0 and g[1] == 0.0 and g[2] == 0.0
+
+
 def _profile(a0, g):
     g0, g1, g2 = g
-    if g0 == 0.0 and g1 == 0.0 and g2 == 0.0:
+    if _flat(g):
         return lambda x, y, z: a0
     return lambda x, y, z: a0 * math.exp(g0 * x + g1 * y + g2 * z)
+
+
+def _profile_form(a0, g, form, ctx, alt):
+    """the same profile in the requested input form: Python callable / plain float / raysect Function3D expression"""
+    if form == "callable":
+        ctx.label("form:callable")
+        return _profile(a0, g)
+    if _flat(g):
+        if alt:
+            ctx.label("form:function3d")
+            return Constant3D(a0)
+        ctx.label("form:float")
+        return a0
+    ctx.label("form:function3d")
+    return a0 * Exp3D(g[0] * Arg3D("x") + g[1] * Arg3D("y") + g[2] * Arg3D("z"))
 
 
 def _bfield(pl):
@@ -205,19 +358,30 @@ class Built:
     pass
 
 
-def build(case, log):
+def build(case, log, ctx):
     b = Built()
     pl, bm = case["plasma"], case["beam"]
     plasma = Plasma()
     bf = _bfield(pl)
-    plasma.b_field = lambda x, y, z: Vector3D(*bf(x, y, z))
+    if _flat(pl["gB"]):
+        plasma.b_field = Vector3D(*pl["B"])
+    else:
+        plasma.b_field = lambda x, y, z: Vector3D(*bf(x, y, z))
     plasma.electron_distribution = Maxwellian(pl["ne"], pl["te"], Vector3D(0, 0, 0), 9.1093837015e-31)
     comp = []
-    for sp in pl["species"]:
+    for i, sp in enumerate(pl["species"]):
         el = getattr(EL, sp["el"])
-        v = sp["v"]
-        comp.append(Species(el, sp["q"], Maxwellian(_profile(sp["n"], sp["gn"]), _profile(sp["T"], sp["gT"]),
-                                                    Vector3D(v[0], v[1], v[2]), el.atomic_weight * AMU_2018)))
+        v = Vector3D(*sp["v"])
+        if sp["vform"] == "callable":
+            vel = lambda x, y, z, v=v: v      # noqa: E731
+        elif sp["vform"] == "function":
+            vel = ConstantVector3D(v)
+        else:
+            vel = v
+        ctx.label("form:v:" + sp["vform"])
+        comp.append(Species(el, sp["q"], Maxwellian(_profile_form(sp["n"], sp["gn"], sp["form"], ctx, i % 2 == 0),
+                                                    _profile_form(sp["T"], sp["gT"], sp["form"], ctx, i % 2 == 1),
+                                                    vel, el.atomic_weight * AMU_2018)))
     plasma.composition = comp
     ad = MockBeamAtomicData(case["rates"], log)
     plasma.atomic_data = ad
@@ -226,32 +390,38 @@ def build(case, log):
     beam.atomic_data = ad
     att = MockBeamAttenuator(bm["dens"])
     beam.attenuator = att
-    beam.energy = bm["E"]
+    beam.energy = bm["E"]            # float or Python int
     beam.power = bm["power"]
     beam.temperature = bm["T"]
     beam.element = getattr(EL, bm["el"])
     beam.length = bm["length"]
     b.plasma, b.beam, b.ad, b.att = plasma, beam, ad, att
-    b.beam_point = Point3D(*bm["point"])
-    b.plasma_point = Point3D(*case["point"])
-    b.beam_dir = Vector3D(*[x * bm["dscale"] for x in bm["dir"]])
-    b.obs = Vector3D(*case["obs"])
     return b
 
 
-def emit(model, b, wl, win, into=None):
-    s = into if into is not None else Spectrum(wl * (1 - win["half"]), wl * (1 + win["half"]), win["bins"])
-    out = model.emission(b.beam_point, b.plasma_point, b.beam_dir, b.obs, s)
-    return out
+def wire(case, b, cls, args, kwargs, ctx):
+    """model connected to beam / plasma / atomic data in one of the three supported ways"""
+    w = case["wire"]
+    ctx.label("wire:" + w)
+    if w == "ctor":
+        return cls(*args, beam=b.beam, plasma=b.plasma, atomic_data=b.ad, **kwargs)
+    model = cls(*args, **kwargs)
+    if w == "setters":
+        model.atomic_data = b.ad
+        model.plasma = b.plasma
+        model.beam = b.beam
+    else:
+        b.beam.models = [model]
+    return model
 
 
 # ----------------------------------------------------------------------------------------------- oracle
 class State:
-    """Local plasma / beam state at the two points, from the case alone (plain Python)."""
+    """Local plasma / beam state for one evaluation, from the case alone (plain Python)."""
 
-    def __init__(self, case, amu):
+    def __init__(self, case, at, E, amu):
         pl, bm = case["plasma"], case["beam"]
-        x, y, z = case["point"]
+        x, y, z = at["pp"]
         self.amu = amu
         self.sp = []
         for sp in pl["species"]:
@@ -259,12 +429,12 @@ class State:
                             "T": _profile(sp["T"], sp["gT"])(x, y, z), "v": sp["v"]})
         bv = _bfield(pl)(x, y, z)
         self.B = math.sqrt(bv[0] ** 2 + bv[1] ** 2 + bv[2] ** 2)
-        bx, by, bz = bm["point"]
+        bx, by, bz = at["bp"]
         self.nb = beam_density(bm["dens"], bx, by, bz) if 0.0 <= bz <= bm["length"] else 0.0
-        speed = math.sqrt(2.0 * bm["E"] * E_CH / amu)
-        d = _unit(bm["dir"])
+        speed = math.sqrt(2.0 * float(E) * E_CH / amu)
+        d = _unit(at["dir"])
         self.vb = [speed * d[0], speed * d[1], speed * d[2]]
-        self.E = bm["E"]
+        self.E = float(E)
         ions = [s for s in self.sp if s["q"] >= 1]
         self.ions = ions
         self.s1 = sum(s["q"] * s["n"] for s in ions)
@@ -280,13 +450,13 @@ class State:
         return max(self.E, 0.5 * self.amu * sum(x * x for x in u) / E_CH)
 
 
-def oracle_cx(case, amu, nion_all):
-    """returns dict(total, q, qs, ks, args) for the CX line."""
-    S = State(case, amu)
+def oracle_cx(case, ev, amu, nion_all):
+    """ev = {"at":, "E":, "recv":, "transition":}; returns dict(total, q, qs, ks, args) for the CX line."""
+    S = State(case, ev["at"], ev["E"], amu)
     rates = BeamRates(case["rates"])
-    r = S.sp[case["recv"]]
+    r = S.sp[ev["recv"]]
     donor = case["beam"]["el"]
-    tr = tuple(case["transition"])
+    tr = tuple(ev["transition"])
     nion = S.nall if nion_all else S.nion
     zeff = S.s2 / S.s1 if S.s1 > 0 else float("nan")
     e_r = S.e_int(r["v"])
@@ -312,8 +482,8 @@ def oracle_cx(case, amu, nion_all):
             "pop_args": pop_args, "nb": S.nb, "nr": r["n"], "e_scale_r": S.e_scale(r["v"])}
 
 
-def oracle_bes(case, amu):
-    S = State(case, amu)
+def oracle_bes(case, ev, amu):
+    S = State(case, ev["at"], ev["E"], amu)
     rates = BeamRates(case["rates"])
     bel = case["beam"]["el"]
     acc, args = 0.0, {}
@@ -327,6 +497,14 @@ def oracle_bes(case, amu):
 
 def _flowing(S):
     return sum(1 for s in S.ions if s["n"] > 0 and any(c != 0.0 for c in s["v"]))
+
+
+def _flow_labels(ctx, S, e_min):
+    live = [s for s in S.ions if s["n"] > 0]
+    if len(live) >= 2 and any(live[0]["v"]) and all(s["v"] == live[0]["v"] for s in live):
+        ctx.label("flows:equal")
+    if S.E > 0 and e_min <= 1e-12 * S.E:
+        ctx.label("flows:comoving")
 
 
 def _check_rate_args(ctx, log, family, expected, what):
@@ -343,61 +521,196 @@ def _check_rate_args(ctx, log, family, expected, what):
         ctx.close(args[2], want[2], what + "-temperature", rtol=1e-9, info="(%s: target temperature)" % key)
 
 
+def _plasma_entry_points(ctx, b, S, at):
+    """Plasma.z_effective / ion_density called directly (twice: the second read equals the first)."""
+    x, y, z = at["pp"]
+    if S.s2 > 0:
+        with ctx.cut("z_effective"):
+            z1, z2 = b.plasma.z_effective(x, y, z), b.plasma.z_effective(x, y, z)
+        ctx.close(z1, S.s2 / S.s1, "z_effective", rtol=1e-12)
+        ctx.check(z1 == z2, "z_effective", "two reads differ")
+    with ctx.cut("ion_density"):
+        n1, n2 = b.plasma.ion_density(x, y, z), b.plasma.ion_density(x, y, z)
+    ctx.check(n1 == n2, "ion_density", "two reads differ")
+    ok = abs(n1 - S.nion) <= 1e-12 * S.nion or abs(n1 - S.nall) <= 1e-12 * S.nall
+    ctx.check(ok, "ion_density", lambda: "Plasma.ion_density %r, sum over ions %r, over all species %r" % (n1, S.nion, S.nall))
+
+
+class Call:
+    """One evaluation: fresh Spectrum, the geometric arguments as fresh objects (checked to be left untouched)."""
+
+    def __init__(self, at, wl, win):
+        self.bp, self.pp = Point3D(*at["bp"]), Point3D(*at["pp"])
+        self.bd = Vector3D(*[x * at["dscale"] for x in at["dir"]])
+        self.ob = Vector3D(*at["obs"])
+        self.spectrum = Spectrum(wl * (1 - win["half"]), wl * (1 + win["half"]), win["bins"])
+        self._snap = self._state()
+
+    def _state(self):
+        return [(p.x, p.y, p.z) for p in (self.bp, self.pp, self.bd, self.ob)]
+
+    def run(self, model):
+        return model.emission(self.bp, self.pp, self.bd, self.ob, self.spectrum)
+
+    def untouched(self):
+        return self._state() == self._snap
+
+
+def _sequence(case, keep_line=False):
+    """the evaluations of the case: first, further steps, and the first again (state restored)"""
+    cur = {"at": case["at"], "E": case["beam"]["E"], "recv": case.get("recv"), "transition": case.get("transition"), "op": None}
+    evs = [dict(cur)]
+    for s in case.get("steps", []):
+        cur = dict(cur)
+        cur["at"] = s
+        cur["op"] = s.get("op")
+        if cur["op"] == "line" and "recv" in s and not keep_line:
+            cur["recv"], cur["transition"] = s["recv"], s["transition"]
+        if cur["op"] == "energy":
+            cur["E"] = s["E"]
+        evs.append(cur)
+    last = dict(evs[0])
+    last["op"] = "restore"
+    evs.append(last)
+    return evs
+
+
 # ----------------------------------------------------------------------------------------------- CX
+def _cx_shape(case, wl):
+    """(kwargs for BeamCXLine, the caller-owned args / kwargs objects with snapshots)"""
+    ls, p = case["ls"], case["lsp"]
+    seq = tuple if p["tuple"] else list
+    n = len(p["ratios"])
+    mult = [[wl * (1 + o) for o in p["offs"][:n]], list(p["ratios"])]
+    if ls == "default":
+        return {}
+    if ls == "gaussian":
+        return {"lineshape": GaussianLine}
+    if ls == "zeeman":
+        return {"lineshape": ZeemanTriplet}
+    if ls == "zeeman-args":
+        return {"lineshape": ZeemanTriplet, "lineshape_args": seq(["no"])}
+    if ls == "zeeman-kwargs":
+        return {"lineshape": ZeemanTriplet, "lineshape_kwargs": {"polarisation": "no"}}
+    if ls == "pzeeman-args":
+        return {"lineshape": ParametrisedZeemanTriplet, "lineshape_args": seq([tuple(p["pz"])])}
+    if ls == "multiplet-args":
+        return {"lineshape": MultipletLineShape, "lineshape_args": seq([mult])}
+    return {"lineshape": MultipletLineShape, "lineshape_kwargs": {"multiplet": mult}}
+
+
 def run_cx(case, ctx):
     log = []
     rates = BeamRates(case["rates"])
     sp = case["plasma"]["species"]
-    r = sp[case["recv"]]
-    el = getattr(EL, r["el"])
-    tr = tuple(case["transition"])
-    line = Line(el, r["q"] - 1, tr)
-    wl = rates.wavelength(r["el"], r["q"] - 1, tr)
+    nmeta = rates.nmeta
+    # a multiplet table holds absolute wavelengths and so belongs to one line: there, a 'line' step re-assigns an equal Line
+    evs = _sequence(case, keep_line=case["ls"].startswith("multiplet"))
+
+    def line_of(ev):
+        r = sp[ev["recv"]]
+        tr = tuple(ev["transition"])
+        return Line(getattr(EL, r["el"]), r["q"] - 1, tr), rates.wavelength(r["el"], r["q"] - 1, tr)
+
+    line0, wl0 = line_of(evs[0])
+    kw = _cx_shape(case, wl0)
+    snap_args = repr(kw.get("lineshape_args")), repr(kw.get("lineshape_kwargs"))
     with ctx.cut("construct"):
-        b = build(case, log)
-        kw = {"lineshape": ZeemanTriplet} if case["ls"] == "zeeman" else {}
-        model = BeamCXLine(line, beam=b.beam, plasma=b.plasma, atomic_data=b.ad, **kw)
-    with ctx.cut("emission"):
-        out = emit(model, b, wl, case["win"])
-    samples = np.array(out.samples)
+        b = build(case, log, ctx)
+        model = wire(case, b, BeamCXLine, (line0,), kw, ctx)
+    ctx.label("meta:%d" % nmeta, "ls:" + case["ls"], "steps:%d" % (len(evs) - 1) if len(evs) <= 3 else "steps:>=3")
+    if rates.metastables() != sorted(rates.metastables()):
+        ctx.label("order:shuffled")
+    if case["rates"].get("cache_lists"):
+        ctx.label("provider:cached-lists")
+    if "rates_class" in case:
+        ctx.label("rates:" + case["rates_class"])
+    if any(s["q"] == 0 for s in sp):
+        ctx.label("neutrals")
+    if isinstance(case["beam"]["E"], int):
+        ctx.label("E:0" if case["beam"]["E"] == 0 else "E:int")
+
+    nt = False
+    first = None
+    cur_line = line0
+    for i, ev in enumerate(evs):
+        line, wl = line_of(ev)          # a fresh Line object, equal to the current one unless the step changes it
+        if ev["op"] == "line" or (ev["op"] == "restore" and line != cur_line):
+            with ctx.cut("line-setter"):
+                model.line = line
+                g1, g2 = model.line, model.line
+            ctx.check(g1 is line and g2 is line, "line-getter", "model.line does not return the assigned Line")
+            cur_line = line
+            if ev["op"] == "line":
+                ctx.label("op:line")
+        if ev["op"] in ("energy", "restore") and b.beam.energy != float(ev["E"]):
+            with ctx.cut("energy-setter"):
+                b.beam.energy = ev["E"]
+            if ev["op"] == "energy":
+                ctx.label("op:energy")
+        if sp[ev["recv"]]["el"] in ISOTOPES:
+            ctx.label("isotope-receiver")
+        del log[:]
+        call = Call(ev["at"], wl, case["win"])
+        with ctx.cut("emission"):
+            out = call.run(model)
+        samples = np.array(out.samples)
+        ctx.check(call.untouched(), "caller-owned", "emission() modified a point / direction argument")
+        nt = _check_cx(case, ctx, ev, b, model, call, out, samples, list(log), nmeta, i == 0) or nt
+        if i == 0:
+            first = (samples.copy(), out, np.array(out.samples))      # result, its Spectrum, content after the additive check
+        if ev["op"] == "restore":
+            ctx.label("repeat")
+            ctx.check(np.array_equal(samples, first[0]), "repeat",
+                      lambda: "first evaluation repeated after %d others differs: max |diff| %r of %r"
+                      % (len(evs) - 2, float(np.max(np.abs(samples - first[0]))), float(np.max(np.abs(first[0])))))
+    # what was handed out by the first evaluation is still intact after the later ones
+    ctx.check(np.array_equal(np.array(first[1].samples), first[2]), "aliasing", "the first spectrum changed during later evaluations")
+    ctx.check((repr(kw.get("lineshape_args")), repr(kw.get("lineshape_kwargs"))) == snap_args, "caller-owned",
+              "lineshape_args / lineshape_kwargs were modified")
+    ctx.check(b.ad.lists_intact(), "provider-owned", "a list returned by atomic_data.beam_cx_pec() was modified by the model")
+    if nt:
+        ctx.label("nt")
+    ctx.nt(nt)
+
+
+def _check_cx(case, ctx, ev, b, model, call, out, samples, log, nmeta, is_first):
+    sp = case["plasma"]["species"]
     delta = out.delta_wavelength
     got = float(samples.sum() * delta)
-
-    o18 = oracle_cx(case, AMU_2018, False)
-    o22 = oracle_cx(case, AMU_2022, False)
+    o18 = oracle_cx(case, ev, AMU_2018, False)
+    o22 = oracle_cx(case, ev, AMU_2022, False)
     S = o18["S"]
-    nmeta = rates.nmeta
-    has_neutral = any(s["q"] == 0 for s in sp)
-    ctx.label("meta:1" if nmeta == 1 else "meta:>=2", "ls:" + case["ls"])
-    if has_neutral:
-        ctx.label("neutrals")
+    _plasma_entry_points(ctx, b, S, ev["at"])
 
     # ---- zero beam or receiver density: nothing is emitted
     if o18["nb"] == 0.0 or o18["nr"] == 0.0:
         ctx.label("zero:beam" if o18["nb"] == 0.0 else "zero:receiver")
         ctx.check(np.all(samples == 0.0), "zero", lambda: "beam density %r, receiver density %r but emission %r"
                   % (o18["nb"], o18["nr"], got))
-        return
+        return False
 
     ctx.check(np.all(np.isfinite(samples)), "finite", "non-finite samples")
+    _flow_labels(ctx, S, o18["cx_args"][0])
 
     # ---- total = (1/4pi) n_beam n_receiver q
     want = o18["total"]
     slack = abs(o22["total"] - want)
-    matched = abs(got - want) <= 1e-9 * abs(want) + slack
+    floor = 1e-300
+    matched = abs(got - want) <= 1e-9 * abs(want) + slack + floor
     if S.nall != S.nion:
         # neutrals with density: 'total ion density' may or may not count them (see ASSUMPTIONS)
-        a18, a22 = oracle_cx(case, AMU_2018, True), oracle_cx(case, AMU_2022, True)
-        m_all = abs(got - a18["total"]) <= 1e-9 * abs(a18["total"]) + abs(a22["total"] - a18["total"])
+        a18, a22 = oracle_cx(case, ev, AMU_2018, True), oracle_cx(case, ev, AMU_2022, True)
+        m_all = abs(got - a18["total"]) <= 1e-9 * abs(a18["total"]) + abs(a22["total"] - a18["total"]) + floor
         if abs(a18["total"] - want) > 4e-9 * abs(want) + 2 * slack:
             ctx.label("nion:counts-neutrals" if m_all and not matched else "nion:ions-only" if matched else "nion:neither")
         if m_all and not matched:
             o18, o22, want, slack, matched = a18, a22, a18["total"], abs(a22["total"] - a18["total"]), True
     if not matched:
         ctx.fail("total", "integrated CX emission %r, expected (1/4pi) n_b n_r q = %r (n_b %r, n_r %r, q %r, q_m %r, k_m %r, "
-                 "E_int %r, T_r %r, n_ion %r, Zeff %r, |B| %r); rel. err %.3g"
+                 "E_int %r, T_r %r, n_ion %r, Zeff %r, |B| %r); rel. err %.3g; evaluation op=%r"
                  % (got, want, o18["nb"], o18["nr"], o18["q"], o18["qs"], o18["ks"], o18["cx_args"][0], o18["cx_args"][1],
-                    o18["cx_args"][2], o18["cx_args"][3], o18["cx_args"][4], abs(got - want) / abs(want)))
+                    o18["cx_args"][2], o18["cx_args"][3], o18["cx_args"][4], abs(got - want) / max(abs(want), 1e-300), ev["op"]))
 
     # ---- q lies between the smallest and the largest individual coefficient
     q_got = got * 4.0 * math.pi / (o18["nb"] * o18["nr"])
@@ -422,15 +735,13 @@ def run_cx(case, ctx):
                 ctx.close(a[i], w, "cx-arg", rtol=1e-9, atol=1e-300, info="(%s: %s)" % (key, names[i]))
     _check_rate_args(ctx, log, "pop", o18["pop_args"], "pop-arg")
 
-    # ---- a second call adds the same line again
+    # ---- a second call adds the same line again (first evaluation only: its spectrum is not compared again)
+    if not is_first:
+        return nmeta >= 2 and _flowing(S) >= 2
     with ctx.cut("emission"):
-        out2 = emit(model, b, wl, case["win"], into=out)
+        out2 = call.run(model)
     ctx.close(np.array(out2.samples), 2 * samples, "additive", rtol=1e-12)
-
-    nt = nmeta >= 2 and _flowing(S) >= 2
-    if nt:
-        ctx.label("nt")
-    ctx.nt(nt)
+    return nmeta >= 2 and _flowing(S) >= 2
 
 
 # ----------------------------------------------------------------------------------------------- BES
@@ -438,47 +749,94 @@ def run_bes(case, ctx):
     log = []
     rates = BeamRates(case["rates"])
     bel = case["beam"]["el"]
-    line = Line(getattr(EL, bel), 0, (3, 2))
     wl = rates.wavelength(bel, 0, (3, 2))
+    evs = _sequence(case)
+    rv = case["ratio_values"]
+    if case["ratios"] == "floats":
+        kw = {"sigma_to_pi": rv[0], "sigma1_to_sigma0": rv[1], "pi2_to_pi3": rv[2], "pi4_to_pi3": rv[3]}
+    elif case["ratios"] == "callables":
+        kw = {"sigma_to_pi": (lambda n, e: rv[0] + 1e-7 * e), "sigma1_to_sigma0": (lambda n: rv[1]),
+              "pi2_to_pi3": (lambda n: rv[2] + 1e-21 * n), "pi4_to_pi3": (lambda n: rv[3])}
+    else:
+        kw = {}
+    line0 = Line(getattr(EL, bel), 0, (3, 2))
     with ctx.cut("construct"):
-        b = build(case, log)
-        model = BeamEmissionLine(line, beam=b.beam, plasma=b.plasma, atomic_data=b.ad)
-    with ctx.cut("emission"):
-        out = emit(model, b, wl, case["win"])
-    samples = np.array(out.samples)
-    got = float(samples.sum() * out.delta_wavelength)
-
-    o18 = oracle_bes(case, AMU_2018)
-    o22 = oracle_bes(case, AMU_2022)
-    S = o18["S"]
+        b = build(case, log, ctx)
+        model = wire(case, b, BeamEmissionLine, (line0,), kw, ctx)
+    ctx.label("ratios:" + case["ratios"], "steps:%d" % (len(evs) - 1) if len(evs) <= 3 else "steps:>=3")
     if any(s["q"] == 0 for s in case["plasma"]["species"]):
         ctx.label("neutrals")
+    if "rates_class" in case:
+        ctx.label("rates:" + case["rates_class"])
+    if isinstance(case["beam"]["E"], int):
+        ctx.label("E:0" if case["beam"]["E"] == 0 else "E:int")
+
+    nt = False
+    first = None
+    for i, ev in enumerate(evs):
+        if ev["op"] == "line":
+            line = Line(getattr(EL, bel), 0, (3, 2))      # an equal but distinct Line object: the cache is rebuilt
+            with ctx.cut("line-setter"):
+                model.line = line
+                g1, g2 = model.line, model.line
+            ctx.check(g1 is line and g2 is line, "line-getter", "model.line does not return the assigned Line")
+            ctx.label("op:line")
+        if ev["op"] in ("energy", "restore") and b.beam.energy != float(ev["E"]):
+            with ctx.cut("energy-setter"):
+                b.beam.energy = ev["E"]
+            if ev["op"] == "energy":
+                ctx.label("op:energy")
+        del log[:]
+        call = Call(ev["at"], wl, case["win"])
+        with ctx.cut("emission"):
+            out = call.run(model)
+        samples = np.array(out.samples)
+        ctx.check(call.untouched(), "caller-owned", "emission() modified a point / direction argument")
+        nt = _check_bes(case, ctx, ev, b, model, call, out, samples, list(log), i == 0) or nt
+        if i == 0:
+            first = (samples.copy(), out, np.array(out.samples))
+        if ev["op"] == "restore":
+            ctx.label("repeat")
+            ctx.check(np.array_equal(samples, first[0]), "repeat",
+                      lambda: "first evaluation repeated after %d others differs: max |diff| %r of %r"
+                      % (len(evs) - 2, float(np.max(np.abs(samples - first[0]))), float(np.max(np.abs(first[0])))))
+    ctx.check(np.array_equal(np.array(first[1].samples), first[2]), "aliasing", "the first spectrum changed during later evaluations")
+    if nt:
+        ctx.label("nt")
+    ctx.nt(nt)
+
+
+def _check_bes(case, ctx, ev, b, model, call, out, samples, log, is_first):
+    got = float(samples.sum() * out.delta_wavelength)
+    o18 = oracle_bes(case, ev, AMU_2018)
+    o22 = oracle_bes(case, ev, AMU_2022)
+    S = o18["S"]
+    _plasma_entry_points(ctx, b, S, ev["at"])
     ctx.label("ions:%d" % sum(1 for s in S.ions if s["n"] > 0))
 
     if o18["nb"] == 0.0 or S.s1 == 0.0:
         ctx.label("zero:beam" if o18["nb"] == 0.0 else "zero:ions")
         ctx.check(np.all(samples == 0.0), "zero", lambda: "beam density %r, ion charge density %r but emission %r" % (o18["nb"], S.s1, got))
-        return
+        return False
 
     ctx.check(np.all(np.isfinite(samples)), "finite", "non-finite samples")
+    e_min = min(a[0][0] for a in o18["args"].values() if a[1])
+    _flow_labels(ctx, S, e_min)
     want = o18["total"]
     slack = abs(o22["total"] - want)
-    if not abs(got - want) <= 1e-9 * abs(want) + slack:
+    if not abs(got - want) <= 1e-9 * abs(want) + slack + 1e-300:
         ctx.fail("total", "integrated beam emission %r, expected (1/4pi) n_b sum_i Z_i n_i q_i = %r (n_b %r, species %r, "
-                 "args per species %r); rel. err %.3g"
-                 % (got, want, o18["nb"], [(s["el"], s["q"], s["n"]) for s in S.ions], o18["args"], abs(got - want) / abs(want)))
+                 "args per species %r); rel. err %.3g; evaluation op=%r"
+                 % (got, want, o18["nb"], [(s["el"], s["q"], s["n"]) for s in S.ions], o18["args"],
+                    abs(got - want) / max(abs(want), 1e-300), ev["op"]))
     _check_rate_args(ctx, log, "bes", o18["args"], "bes-arg")
-
-    with ctx.cut("emission"):
-        out2 = emit(model, b, wl, case["win"], into=out)
-    ctx.close(np.array(out2.samples), 2 * samples, "additive", rtol=1e-12)
-
-    nt = _flowing(S) >= 2
-    if nt:
-        ctx.label("nt")
     if any(s["q"] >= 2 and s["n"] > 0 for s in S.ions):
         ctx.label("Z>=2")
-    ctx.nt(nt)
+    if is_first:
+        with ctx.cut("emission"):
+            out2 = call.run(model)
+        ctx.close(np.array(out2.samples), 2 * samples, "additive", rtol=1e-12)
+    return _flowing(S) >= 2
 
 
 SUBCHECKS = {
